@@ -15,7 +15,9 @@ MANIFEST = dict(
          "declarations with go/types facts) and all flag values: on the WF region the model's "
          "written files, the types each holds and the listed names equal the specification (named types / eligible types of the file / "
          "eligible types of the package; src.shoot<cmd>[.<type>].go; bad names rejected with a diagnostic). Two finding regions with "
-         "witness theorems (-type=* dot-files); three former ones were repaired in /repo and are now asserted. Model tied to the code by running the rebuilt binary on generated multi-file packages for all four sub-commands.",
+         "witness theorems (-type=* dot-files); three former ones were repaired in /repo and are now asserted. Model tied to the code by running the rebuilt binary on generated multi-file packages for all four sub-commands, from the "
+         "package directory and from other directories with [dir], with sub-command flags in the mix, and by an in-process differential "
+         "of the go:generate line recogniser against the real findCmdLine.",
     note="Lean kernel + standard axioms; black-box correspondence on the rebuilt shoot binary (directory diff, top-level declarations of "
          "each written file, CLI messages); Go's flag package, go/types facts and generation success of eligible types are inputs of the model.",
     technique="Lean 4 proof (induction over declaration lists) + differential model/implementation correspondence",
